@@ -366,18 +366,28 @@ func parseGroup(mp *msgParser, tags []Tag) {
 				mp.msg.Body.add(dm)
 				// Cycle again with the new group.
 				dm = mp.msg.fields[mp.fieldIndex : mp.fieldIndex+1]
+				tags = searchTags
 				fields = getGroupFields(mp.msg, searchTags, mp.appDataDictionary)
 				continue
 			}
-			if len(tags) > 1 {
-				searchTags = tags[:len(tags)-1]
+			// Did this tag occur after a nested group and belongs to one of the enclosing groups.
+			inEnclosingGroup := false
+			for len(tags) > 1 {
+				tags = tags[:len(tags)-1]
+				fields = getGroupFields(mp.msg, tags, mp.appDataDictionary)
+				if isGroupMember(mp.parsedFieldBytes.tag, fields) {
+					inEnclosingGroup = true
+					break
+				}
 			}
-			// Did this tag occur after a nested group and belongs to the parent group.
-			if isNumInGroupField(mp.msg, searchTags, mp.appDataDictionary) {
-				// Add the field member to the group.
+			if inEnclosingGroup {
+				// Is this field a nested repeating group of the enclosing group.
+				if isNumInGroupField(mp.msg, append(tags, mp.parsedFieldBytes.tag), mp.appDataDictionary) {
+					tags = append(tags, mp.parsedFieldBytes.tag)
+					fields = getGroupFields(mp.msg, tags, mp.appDataDictionary)
+				}
+				// Add the field member to the group and continue parsing the enclosing group.
 				dm = append(dm, *mp.parsedFieldBytes)
-				// Continue parsing the parent group.
-				fields = getGroupFields(mp.msg, searchTags, mp.appDataDictionary)
 				continue
 			}
 			// Add the repeating group.
